@@ -55,6 +55,13 @@ def err_message(val):
     return None, None
 
 
+def stale_copy(leaf):
+    """a clone of the receiver taken before the last write to it"""
+    last_write = max([i for i, e in enumerate(leaf.events) if e["k"] == "write"], default=-1)
+    clones = [i for i, e in enumerate(leaf.events) if e["k"] == "call" and e["callee"].endswith("Clone>::clone")]
+    return bool(clones) and min(clones) < last_write
+
+
 def check_binding(ctx, lib, rid_prefix, methods, name_of, self_names, expected_return, thresholds_signed):
     """methods: dict binding-method-name -> Body; name_of(core_setter) -> binding method name."""
     api = common.spec("api")
@@ -87,6 +94,9 @@ def check_binding(ctx, lib, rid_prefix, methods, name_of, self_names, expected_r
             w = sorted((x[0][-1] if x[0] else "?", value_class(x[1], params)) for x in leaf_writes(rets[0]))
             if w != core_w:
                 ctx.violation(rid, (b.path, "writes"), "binding writes %s, the library's %s writes %s" % (w, setter, core_w), b.loc())
+                continue
+            if stale_copy(rets[0]):
+                ctx.violation(rid, (b.path, "stale copy"), "the returned copy is taken before the setting is stored: the caller receives a builder without it", b.loc())
                 continue
             if not expected_return(rets[0].value, False):
                 ctx.violation(rid, (b.path, "return"), "setter returns %s" % ccp.show(rets[0].value), b.loc())
@@ -126,6 +136,9 @@ def check_binding(ctx, lib, rid_prefix, methods, name_of, self_names, expected_r
             msg, ctor = err_message(erl.value)
             if msg != sp["panic_if_zero"]:
                 ctx.violation(rid2, (b.path, "message"), "error message is %r, the library's message is %r" % (msg, sp["panic_if_zero"]), b.loc())
+                continue
+            if stale_copy(okl):
+                ctx.violation(rid2, (b.path, "stale copy"), "the returned copy is taken before the threshold is stored", b.loc())
                 continue
             if not expected_return(okl.value, True):
                 ctx.violation(rid2, (b.path, "return"), "threshold method returns %s" % ccp.show(okl.value), b.loc())
